@@ -29,13 +29,24 @@ ALLOWED_AXIOMS = {"propext", "Classical.choice", "Quot.sound"}
 sys.path.insert(0, os.path.join(VERIF, "translate"))
 
 
+def _limit_harness():
+    # the harness runs the code under test: a change that makes it loop while allocating must end as a failed
+    # stream (allocation failure aborts the process), not take the machine down
+    import resource
+    resource.setrlimit(resource.RLIMIT_AS, (24 << 30, 24 << 30))
+
+
 def sh(cmd, cwd=None, timeout=None, env=None, input_bytes=None):
     e = dict(os.environ)
     e["CARGO_NET_OFFLINE"] = "true"
     if env:
         e.update(env)
-    p = subprocess.run(cmd, cwd=cwd, stdout=subprocess.PIPE, stderr=subprocess.STDOUT, timeout=timeout, env=e,
-                       input=input_bytes)
+    pre = _limit_harness if cmd and cmd[0] == HX else None
+    try:
+        p = subprocess.run(cmd, cwd=cwd, stdout=subprocess.PIPE, stderr=subprocess.STDOUT, timeout=timeout, env=e,
+                           input=input_bytes, preexec_fn=pre)
+    except subprocess.TimeoutExpired as ex:
+        return -1, f"timed out after {timeout} s: " + (ex.stdout or b"").decode("utf-8", "replace")[-400:]
     return p.returncode, p.stdout.decode("utf-8", "replace")
 
 
@@ -192,7 +203,23 @@ def prove(prop_mods, res, extra_audit_mods=()):
     audit_sources(list(prop_mods) + list(extra_audit_mods), res)
     if rc == 0 and thms:
         audit_axioms(prop_mods, [n for _, _, n in thms], res)
+        if res.tier == "thorough":
+            recheck(prop_mods, res)
     return rc == 0
+
+
+def recheck(prop_mods, res):
+    """Thorough tier: the toolchain's independent re-checker replays the compiled theorem modules' declarations
+    through the kernel (it does not trust the elaborator that produced the .olean files)."""
+    import concurrent.futures as cf
+    def one(m):
+        rc, out = sh(["lake", "env", "leanchecker", m], cwd=LEAN, timeout=1800)
+        return m, rc, out
+    with cf.ThreadPoolExecutor(max_workers=4) as ex:
+        for m, rc, out in ex.map(one, list(prop_mods)):
+            res.stats[f"leanchecker.{m}"] = "ok" if rc == 0 else f"rc={rc}"
+            if rc != 0:
+                res.broken.append(("audit", f"leanchecker {m}", out[-600:]))
 
 
 def audit_axioms(prop_mods, names, res):
@@ -271,7 +298,7 @@ def run_stream(stream, args, res, seed, tier, model_stream=None, timeout=3000, l
     return compare_lines(out.splitlines(), model_stream or stream, res, label)
 
 
-def compare_lines(lines, model_stream, res, label, ignore_oracle=False, only_tag=None):
+def compare_lines(lines, model_stream, res, label, ignore_oracle=False, only_tag=None, structural=False):
     inputs, outputs = [], []
     for line in lines:
         if line.startswith("#ORACLE-FAIL\t"):
@@ -281,6 +308,12 @@ def compare_lines(lines, model_stream, res, label, ignore_oracle=False, only_tag
                 continue
             _, what, replay = (line.split("\t", 2) + ["", ""])[:3]
             res.violations.append((f"[{label}] {what}", replay.replace("\\n", "\n")))
+        elif line.startswith("#PANIC\t"):
+            # the code under test panicked outside every guarded call and the stream ended early: reported for whichever
+            # property runs the stream (its generator stays inside inputs that must be processed)
+            _, what, replay = (line.split("\t", 2) + ["", ""])[:3]
+            res.violations.append((f"[{label}] {what}", replay.replace("\\n", "\n")))
+            res.broken.append(("harness", f"stream {label}", "ended early: " + what[:300]))
         elif line.startswith("#STAT\t"):
             _, k, v = (line.split("\t", 2) + ["", ""])[:3]
             res.stats[f"{label}.{k}"] = v
@@ -300,8 +333,10 @@ def compare_lines(lines, model_stream, res, label, ignore_oracle=False, only_tag
         if rc != 0 or len(mlines) != len(inputs):
             res.broken.append(("correspondence", label, f"model driver exit {rc}, {len(mlines)} lines for {len(inputs)} inputs: {mout[-400:]}"))
             return None
+        # structural: the property is about which terms exist and which atoms they involve, not about their numbers
+        canon = (lambda t: re.sub(r"\b[0-9a-f]{16}\b", "#", t)) if structural else (lambda t: t)
         for i, o, m in zip(inputs, outputs, mlines):
-            if o != m:
+            if canon(o) != canon(m):
                 mism.append((i, o, m))
     res.cases += len(inputs)
     res.distinct += len(set(inputs))
@@ -312,6 +347,50 @@ def compare_lines(lines, model_stream, res, label, ignore_oracle=False, only_tag
         res.broken.append(("correspondence", label,
                            f"{len(mism)} of {len(inputs)} cases differ; first: input={i[:400]} impl={o[:400]} model={m[:400]}"))
     return mism
+
+
+HEX16 = re.compile(r"^[0-9a-f]{16}$")
+
+
+def _f64(tok):
+    import struct
+    return struct.unpack(">d", bytes.fromhex(tok))[0]
+
+
+def numeric_search(mism, res, label, proved, rel=1e-9, limit=5, per_token=False):
+    """The search for a failing input when a bit-for-bit numeric correspondence breaks. The model side is the function
+    the theorems are about (`proved` says what is proved of it), so an input on which the implementation's numbers
+    differ from the model's by more than rounding can explain is an input on which the implementation does not have
+    the proved form: that input is reported as the violation. Differences within `rel` of the line's largest magnitude
+    (re-association, fused operations) are left as a broken correspondence only."""
+    import math
+    found = 0
+    for i, o, m in mism or []:
+        to, tm = re.split(r"[\s;|,]+", o.strip()), re.split(r"[\s;|,]+", m.strip())
+        if len(to) != len(tm):
+            continue
+        pairs = [(a, b) for a, b in zip(to, tm) if HEX16.match(a) and HEX16.match(b)]
+        if not pairs or any((a != b) for a, b in zip(to, tm) if not (HEX16.match(a) and HEX16.match(b))):
+            continue
+        vals = [(_f64(a), _f64(b)) for a, b in pairs]
+        scale = max([abs(v) for ab in vals for v in ab if math.isfinite(v)] + [1e-300])
+        worst = None
+        for k, (a, b) in enumerate(vals):
+            if math.isnan(a) and math.isnan(b):
+                continue
+            sc = max(abs(a), abs(b), 1e-12) if per_token and math.isfinite(a) and math.isfinite(b) else scale
+            if (math.isfinite(a) != math.isfinite(b)) or (math.isfinite(a) and abs(a - b) > rel * sc + 1e-300):
+                d = abs(a - b) if math.isfinite(a) and math.isfinite(b) else float("inf")
+                if worst is None or d > worst[0]:
+                    worst = (d, k, a, b)
+        if worst:
+            d, k, a, b = worst
+            res.violations.append((f"[{label}] the implementation's value #{k} is {a!r} where the model ({proved}) gives {b!r}: a difference of {d:.3g} "
+                                   f"against a scale of {scale:.3g}, beyond rounding", f"{i}\nimplementation: {o}\nmodel:          {m}"))
+            found += 1
+            if found >= limit:
+                break
+    return found
 
 
 # ------------------------------------------------------------------------------------------------ findings / verdict
